@@ -107,3 +107,130 @@ Proof.
     exists 0. split; left; reflexivity.
   - vm_compute. repeat split; reflexivity.
 Qed.
+
+(* ======================================================================
+   END STATE (Model/Flow.v): the scheduler model composed with run ids as the
+   code hands them out (one `runid` attribute per node, overwritten by every
+   organize; db.next() at dispatch), the primary table with the load rule of
+   shelve Interface._load (own run first, else highest run id) and
+   deterministic algorithms whose output is an injective term of what they
+   loaded; a value is new iff no blob with that content exists.
+
+   vocabulary (Proofs/FlowInv.v, FlowSteps.v, FlowMain.v):
+   flow_ok c      task-only engine, no feedback, one value per algorithm (value
+                  id = node id), kids = the algorithms declaring the node's value,
+                  levels increase along declared inputs, `ancestry` contains the
+                  declared inputs and is transitive, ALL is not a target
+   hist_ok c f es every change event FChg names tgts of es arrives at a QUIESCENT
+                  pipeline (nothing pending, nothing executing: the change events
+                  do not overlap), names algorithms without declared inputs and
+                  known targets, and the first one names all of them for all
+                  targets (nothing was computed before); ticks and runs (any
+                  waiting message, any order) are unconstrained; every worker succeeds
+   consistent c f the latest stored content (highest run id) of every known
+                  target and value = eval_topo: the from-scratch run, every
+                  algorithm once in level order reading what the earlier ones wrote
+   ====================================================================== *)
+From Coq Require Import Lia.
+From DV Require Import Model.Flow Proofs.FlowProofs Proofs.FlowInv Proofs.FlowSteps Proofs.FlowMain.
+
+(* PARTIAL: what is missing with respect to the property text
+   - change events that overlap (refuted below: the open finding endstate-stale);
+   - engines with several values per algorithm, value-level fan-out, feedback,
+     analyses/regressions (flow_ok); failures of workers;
+   - the freshness hypothesis of the property is discharged, not assumed: a
+     changed external input gets a content never stored before (change counter),
+     and the proof shows every re-run value is then new as well. *)
+Theorem C02_endstate_partial : forall c, flow_ok c = true -> forall es,
+  hist_ok c (finit c) es = true ->
+  let f := frun_all c (finit c) es in
+  0 < ctr f -> quiescent c f = true -> consistent c f = true.
+Proof. exact endstate_nonoverlap. Qed.
+Print Assumptions C02_endstate_partial.
+
+(* the same, one event at a time: from ANY state satisfying the invariant FInv
+   (every state reached by a non-overlapping history does: C02_endstate_invariant)
+   one more change event followed by any ticks and runs ends consistent *)
+Theorem C02_endstate_one_event : forall c, flow_ok c = true -> forall b f names tgts es,
+  FInv c b f -> quiescent c f = true -> chg_ok c f names tgts = true ->
+  hist_ok c (fchg c names tgts f) es = true ->
+  let f' := frun_all c (fchg c names tgts f) es in
+  quiescent c f' = true -> consistent c f' = true.
+Proof. exact endstate_one_event. Qed.
+Print Assumptions C02_endstate_one_event.
+
+Theorem C02_endstate_invariant : forall c, flow_ok c = true -> forall es,
+  hist_ok c (finit c) es = true -> exists b, FInv c b (frun_all c (finit c) es).
+Proof. intros c OK es H. exact (hist_FInv c OK es (finit c) 0%Z (init_FInv c) H). Qed.
+Print Assumptions C02_endstate_invariant.
+
+(* hist_ok implies the model's own `nonoverlap` predicate *)
+Theorem C02_hist_ok_nonoverlap : forall c es f, hist_ok c f es = true -> nonoverlap c f es = true.
+Proof. intros c es f. exact (hist_ok_nonoverlap c es f). Qed.
+Print Assumptions C02_hist_ok_nonoverlap.
+
+(* the load rule: while the entries written since the last change event are
+   unique per (target, value), a job of a run id issued since then loads the
+   latest stored content, whether or not it finds an entry of its own run *)
+Theorem C02_load_is_latest : forall st (b r : Z) t v,
+  (forall e1 e2, In e1 st -> In e2 st -> same_key e1 t v = true -> same_key e2 t v = true ->
+                 (b < e_rid e1)%Z -> (b < e_rid e2)%Z -> e1 = e2) ->
+  (b < r)%Z -> sload st r t v = latest st t v.
+Proof. exact sload_latest. Qed.
+Print Assumptions C02_load_is_latest.
+
+(* the reference: the fold in level order computes the recursion on declared inputs *)
+Theorem C02_eval_topo_rec : forall c, flow_ok c = true -> forall l t v, v < nnodes (fc c) ->
+  lookup (eval_topo c l t) v = eval_rec c l (S (lvl (gi (fc c) v))) t v.
+Proof. intros c OK l t v Hv. exact (eval_topo_ev c OK l t v Hv). Qed.
+Print Assumptions C02_eval_topo_rec.
+
+(* REFUTED for overlapping change events -- the model image of the open known
+   finding endstate-stale, replayed on the real scheduler + shelve store on every
+   run of the check (props/c02_flow.py WITNESS).  Roots a (0) and b (1); c (2)
+   reads b; d (3) reads a and c.  Both roots change (run 1); while c executes, a
+   changes again (run 2) and its report marks d for run 2; then c's report (run
+   1) overwrites d's single run id with 1; d runs once, under run 1, finds the
+   exact-run entry a@1 although a@2 exists, and nothing triggers it again. *)
+Definition ex_vee : fcfg :=
+  {| fc := {| gnodes := [ {| kids := [3]; anc := []; gfac := Task; lvl := 0; ins := [] |};
+                          {| kids := [2]; anc := []; gfac := Task; lvl := 0; ins := [] |};
+                          {| kids := [3]; anc := [1]; gfac := Task; lvl := 1; ins := [1] |};
+                          {| kids := []; anc := [0; 1; 2]; gfac := Task; lvl := 2; ins := [0; 2] |} ];
+              gfb := []; gtargets := [1] |};
+     fouts := [[0]; [1]; [2]; [3]] |}.
+Definition ex_stale_hist : list fev :=
+  [FChg [0; 1] [1]; FTick; FRun 0; FRun 0; FTick; FChg [0] [1]; FTick; FRun 1; FRun 0; FTick; FRun 0].
+
+Theorem C02_endstate_refuted : exists c es,
+  flow_ok c = true /\
+  let f := frun_all c (finit c) es in
+  0 < ctr f /\ quiescent c f = true /\ consistent c f = false /\
+  nonoverlap c (finit c) es = false /\
+  stale_values c f = [(1, 3)] /\
+  latest (sto f) 1 3 = CVal 3 1 0 [CVal 0 1 1 []; CVal 2 1 0 [CVal 1 1 1 []]] /\
+  lookup (eval_topo c (rin f) 1) 3 = CVal 3 1 0 [CVal 0 1 2 []; CVal 2 1 0 [CVal 1 1 1 []]].
+Proof. exists ex_vee, ex_stale_hist. vm_compute. repeat split; try reflexivity. lia. Qed.
+Print Assumptions C02_endstate_refuted.
+
+(* non-vacuity: the hypotheses of C02_endstate_partial are satisfiable (diamond,
+   two change events, the second after the first has settled; runs out of order)
+   and its conclusion is what the model computes *)
+Example C02_endstate_example :
+  flow_ok ex_diamond = true /\ hist_ok ex_diamond (finit ex_diamond) ex_hist = true /\
+  let f := frun_all ex_diamond (finit ex_diamond) ex_hist in
+  0 < ctr f /\ quiescent ex_diamond f = true /\ consistent ex_diamond f = true /\
+  latest (sto f) 1 3 = CVal 3 1 0 [CVal 1 1 0 [CVal 0 1 2 []]; CVal 2 1 0 [CVal 0 1 2 []]].
+Proof. vm_compute. repeat split; try reflexivity. lia. Qed.
+
+(* non-vacuity of C02_endstate_one_event: the same engine, the second event alone *)
+Example C02_endstate_one_event_example :
+  let f := frun_all ex_diamond (finit ex_diamond) (firstn 8 ex_hist) in
+  quiescent ex_diamond f = true /\ chg_ok ex_diamond f [0] [1] = true /\
+  hist_ok ex_diamond (fchg ex_diamond [0] [1] f) (skipn 9 ex_hist) = true /\
+  quiescent ex_diamond (frun_all ex_diamond (fchg ex_diamond [0] [1] f) (skipn 9 ex_hist)) = true.
+Proof. vm_compute. repeat split; reflexivity. Qed.
+
+(* the witness engine is in the class of the theorem: only the overlap is outside *)
+Example C02_refuted_in_class : flow_ok ex_vee = true /\ hist_ok ex_vee (finit ex_vee) ex_stale_hist = false.
+Proof. vm_compute. split; reflexivity. Qed.
